@@ -14,7 +14,10 @@ from vt.core import case_hash
 PID = 'C08'
 RULE = ('1-5 of 11 volatile chemicals, compositions incl. zeros and traces (1e-12..1), T 260-480 K inside every Psat range, P 5e3-3e6 Pa, Dortmund-activity and ideal packages, scale factors '
         'k in {0.5, 2, 1e-3, 1e3}, every permutation for n<=4; clauses: residual of the bubble / dew equation at the returned point, normalised y / x, solve_T(solve_P(T)) = T, T_bubble <= T_dew and '
-        'P_dew <= P_bubble, single component = Tsat/Psat, permutation, scale. non-trivial = >=2 components above 1e-6 and a converged residual evaluated; distinct = hash of the case')
+        'P_dew <= P_bubble, single component = Tsat/Psat, permutation, scale. added by the coverage audit: UNIFAC activity coefficients and the ideal-gas Poynting factor; solve_P(solve_T(P)) = P; the call form '
+        'BubblePoint / DewPoint(z as list / tuple, T= | P=) and its result object (echoed value, IDs, normalised z, y / x, value of the solve_* method); Stream.bubble_point_at_T / _at_P / dew_point_at_T / _at_P with flows k*z (default, '
+        'explicit and IDs= forms) against the solver; permuted compositions for all four solvers, random permutations for n = 4; single component with k*z, through the call form and at another list position; a solver on a subset of the '
+        'package against a package of that subset; the cached instance against a fresh one. non-trivial = >=2 components above 1e-6 and a converged residual evaluated; distinct = hash of the case')
 MIN_NONTRIVIAL = {'quick': 300, 'thorough': 8000}
 ASSUMPTIONS = ['residuals are recomputed from the solver object\'s own gamma/phi/pcf/Psat members', 'dew-side permutation tolerance is 1e-4 K / 1e-6 relative in P (the inner dew iteration is not converged tighter than that); input classes: "family" = all members from one homologous family or ideal package; "cross-family" = non-ideal package with members of different families']
 FAMILIES = {'alcohol': ('Methanol', 'Ethanol', 'Propanol', 'Butanol'), 'alkane-aromatic': ('Hexane', 'Heptane', 'Octane', 'Benzene', 'Toluene'), 'other': ('Water', 'Acetone')}
@@ -24,13 +27,19 @@ _th = {}
 
 
 def required(tier):
-    return ['bubble-residual', 'dew-residual', 'normalised', 'inverse', 'bracket', 'single-component', 'permutation', 'scale', 'pkg:ideal', 'pkg:dortmund']
+    return ['bubble-residual', 'dew-residual', 'normalised', 'inverse', 'bracket', 'single-component', 'permutation', 'scale', 'pkg:ideal', 'pkg:dortmund',
+            # coverage audit
+            'pkg:unifac', 'pkg:pcf', 'call-form', 'call-form:list', 'call-form:tuple', 'stream-level', 'stream-level:default', 'stream-level:IDs', 'single:scaled', 'single:call-form', 'single:permuted',
+            'permutation:random', 'subset-of-package', 'fresh-instance', 'cache']
 
 
-def thermo(ids, ideal):
-    k = (tuple(ids), ideal)
+def thermo(ids, ideal, pkg=None):
+    k = (tuple(ids), ideal) if not pkg else (tuple(ids), ideal, pkg)
     if k not in _th:
-        th = tmo.Thermo(tmo.Chemicals(list(ids), cache=True))
+        kw = {}
+        if pkg and 'unifac' in pkg: kw['Gamma'] = eq.UNIFACActivityCoefficients
+        if pkg and 'pcf' in pkg: kw['PCF'] = eq.IdealGasPoyintingCorrectionFactors
+        th = tmo.Thermo(tmo.Chemicals(list(ids), cache=True), **kw)
         _th[k] = th.ideal() if ideal else th
     return _th[k]
 
@@ -50,8 +59,12 @@ def gen_case(rng):
         z.append(0.0 if r < 0.12 else (10 ** rng.uniform(-12, -3) if r < 0.25 else rng.uniform(0.05, 1)))
     if not any(v > 1e-3 for v in z): z[0] = 1.0
     s = sum(z); z = [v / s for v in z]
-    return {'ids': ids, 'ideal': ideal, 'z': z, 'T': round(rng.uniform(260, 480), 2), 'P': round(10 ** rng.uniform(math_log10(5e3), math_log10(3e6)), 1),
+    c = {'ids': ids, 'ideal': ideal, 'z': z, 'T': round(rng.uniform(260, 480), 2), 'P': round(10 ** rng.uniform(math_log10(5e3), math_log10(3e6)), 1),
             'k': rng.choice([0.5, 2.0, 1e-3, 1e3]), 'pseed': rng.randrange(10 ** 6)}
+    # coverage audit: the other activity-coefficient class offered (UNIFAC) and a Poynting factor that is not 1; a fresh solver instance against the cached one
+    c['pkg'] = None if ideal else rng.choice([None, None, None, 'unifac', 'pcf', 'unifac+pcf'])
+    c['fresh'] = rng.random() < 0.2
+    return c
 
 
 def math_log10(x):
@@ -116,8 +129,10 @@ def dew_status(dp, z, T, P, x, method):
 def run_case(case, rec):
     rec.begin_case(case)
     ids = case['ids']; z = np.array(case['z'], float); T0 = case['T']; P0 = case['P']
-    th = thermo(ids, case['ideal'])
+    th = thermo(ids, case['ideal'], case.get('pkg'))
     chems = tuple(th.chemicals)
+    if case.get('pkg'):
+        for part in case['pkg'].split('+'): rec.hit('pkg:' + part)
     cls = input_class(case)
     rec.hit('pkg:ideal' if case['ideal'] else 'pkg:dortmund')
     try:
@@ -152,6 +167,8 @@ def run_case(case, rec):
             rec.check(r[0] == exp, 'single-component', name, f'single component {c.ID}: {name} gives {r[0]!r} but the saturation value is {exp!r}')
             comp = np.asarray(r[1], float)
             rec.check(abs(comp.sum() - 1) <= 1e-12 and comp[k] == comp.sum(), 'single-component', name + '/composition', f'single component {c.ID}: returned composition {comp.tolist()}')
+        try: single_extra(case, rec, th, chems, bp, dp, z, T0, P0, k)
+        except Exception as e: rec.exception('harness', e, what=f'harness error in the additional single-component clauses: {type(e).__name__}: {e}')
         rec.mark_nontrivial(case_hash(case)); return
     Tlo, Thi = bp.Tmin, bp.Tmax
     # ---- residuals and normalisation
@@ -219,7 +236,7 @@ def run_case(case, rec):
             p = list(range(n)); r_.shuffle(p); perms.append(tuple(p))
     for p in perms[:6]:
         pid = [ids[i] for i in p]
-        thp = thermo(pid, case['ideal']); chp = tuple(thp.chemicals)
+        thp = thermo(pid, case['ideal'], case.get('pkg')); chp = tuple(thp.chemicals)
         try:
             bpp = eq.BubblePoint(chp, thp); dpp = eq.DewPoint(chp, thp)
             zp = z[list(p)]
@@ -229,14 +246,19 @@ def run_case(case, rec):
             if Tb is not None and Tlo < Tb[0] < Thi:
                 r = bpp.solve_Ty(zp.copy(), P0)
                 rec.check(abs(r[0] - Tb[0]) <= 1e-9 * Tb[0] + 1e-8, 'permutation', f'bubble-T/{cls}', f'bubble temperature depends on the order of the chemicals: {Tb[0]!r} vs {r[0]!r} for order {pid}')
+                rec.check(np.allclose(r[1], np.asarray(Tb[1])[list(p)], rtol=1e-6, atol=1e-12), 'permutation', f'bubble-T-y/{cls}', f'the vapour composition at the bubble temperature is not permuted with the list: {np.asarray(Tb[1])[list(p)].tolist()} vs {np.asarray(r[1]).tolist()} for order {pid}')
             if Pd is not None:
                 r = dpp.solve_Px(zp.copy(), T0)
                 stp, _ = dew_status(dpp, zp, T0, r[0], r[1], 'solve_Px')
                 rec.check(abs(r[0] - Pd[0]) <= 1e-6 * Pd[0] + 1e-2, 'permutation', f'dew-P/{cls}' + ('/dew-unconverged' if (stp == 'unconverged' or dew_bad.get('solve_Px') == 'unconverged') else ''), f'dew pressure depends on the order of the chemicals: {Pd[0]!r} vs {r[0]!r} for order {pid}')
+                if stp == 'ok' and dew_bad.get('solve_Px') == 'ok' and abs(r[0] - Pd[0]) <= 1e-6 * Pd[0] + 1e-2:
+                    rec.check(np.allclose(r[1], np.asarray(Pd[1])[list(p)], rtol=0, atol=1e-5), 'permutation', f'dew-P-x/{cls}', f'the liquid composition at the dew pressure is not permuted with the list: {np.asarray(Pd[1])[list(p)].tolist()} vs {np.asarray(r[1]).tolist()} for order {pid}')
             if Td is not None and Tlo < Td[0] < Thi:
                 r = dpp.solve_Tx(zp.copy(), P0)
                 stp, _ = dew_status(dpp, zp, r[0], P0, r[1], 'solve_Tx') if Tlo < r[0] < Thi else ('unconverged', 0)
                 rec.check(abs(r[0] - Td[0]) <= 1e-4, 'permutation', f'dew-T/{cls}' + ('/dew-unconverged' if (stp == 'unconverged' or dew_bad.get('solve_Tx') == 'unconverged') else ''), f'dew temperature depends on the order of the chemicals: {Td[0]!r} vs {r[0]!r} for order {pid}')
+                if stp == 'ok' and dew_bad.get('solve_Tx') == 'ok' and abs(r[0] - Td[0]) <= 1e-4:
+                    rec.check(np.allclose(r[1], np.asarray(Td[1])[list(p)], rtol=0, atol=1e-5), 'permutation', f'dew-T-x/{cls}', f'the liquid composition at the dew temperature is not permuted with the list: {np.asarray(Td[1])[list(p)].tolist()} vs {np.asarray(r[1]).tolist()} for order {pid}')
         except Exception as e:
             if type(e).__name__ in ('InfeasibleRegion', 'DomainError'): rec.refuse('permuted call refused'); continue
             rec.exception(f'permutation/{cls}', e, what=f'solver on the permuted list {pid} raised {type(e).__name__}: {str(e)[:100]}'); break
@@ -269,7 +291,208 @@ def run_case(case, rec):
         except Exception as e:
             if type(e).__name__ in ('InfeasibleRegion', 'DomainError'): rec.refuse('scaled call refused'); continue
             rec.exception('scale', e, what=f'{name} with k*z raised {type(e).__name__}: {str(e)[:100]}')
+    try: extra(case, rec, th, chems, bp, dp, z, T0, P0, cls, Pb, Tb, Pd, Td, dew_bad, call)
+    except Exception as e: rec.exception('harness', e, what=f'harness error in the additional clauses: {type(e).__name__}: {e}')
     if int((z > 1e-6).sum()) >= 2: rec.mark_nontrivial(case_hash(case))
+
+
+def refusal(e):
+    return type(e).__name__ in ('InfeasibleRegion', 'DomainError', 'NoEquilibrium')
+
+
+def single_extra(case, rec, th, chems, bp, dp, z, T0, P0, k_pos):
+    """single-component mixture: the saturation value must not depend on the scale of z, on the call form, or on where the chemical stands in a longer list"""
+    c = chems[k_pos]; k = case['k']
+    expP = c.Psat(T0) if T0 <= c.Tc else c.Pc
+    expT = c.Tsat(P0, check_validity=False) if P0 <= c.Pc else c.Tc
+    n = len(chems)
+    unit = np.zeros(n); unit[k_pos] = 1.0
+    forms = (('solve_Py(k*z)', lambda: bp.solve_Py(k * z, T0), expP), ('solve_Ty(k*z)', lambda: bp.solve_Ty(k * z, P0), expT),
+             ('solve_Px(k*z)', lambda: dp.solve_Px(k * z, T0), expP), ('solve_Tx(k*z)', lambda: dp.solve_Tx(k * z, P0), expT))
+    for name, fn, exp in forms:
+        try: r = fn()
+        except Exception as e:
+            if refusal(e): rec.refuse(f'single {name}: {type(e).__name__}'); continue
+            rec.exception('single-component', e, what=f'single component {c.ID}: {name} raised {type(e).__name__}: {str(e)[:100]}'); continue
+        rec.hit('single:scaled')
+        rec.check(r[0] == exp and np.array_equal(np.asarray(r[1], float), unit), 'single-component', name.split('(')[0] + '/scaled', f'single component {c.ID} (k={k}): {name} gives {r[0]!r}, {np.asarray(r[1]).tolist()} but the saturation value is {exp!r}')
+    for name, obj, kw, exp in (('BubblePoint(z,T)', bp, {'T': T0}, expP), ('BubblePoint(z,P)', bp, {'P': P0}, expT), ('DewPoint(z,T)', dp, {'T': T0}, expP), ('DewPoint(z,P)', dp, {'P': P0}, expT)):
+        try: a = obj(list(k * z), **kw)
+        except Exception as e:
+            if refusal(e): rec.refuse(f'single {name}: {type(e).__name__}'); continue
+            rec.exception('single-component', e, what=f'single component {c.ID}: {name} raised {type(e).__name__}: {str(e)[:100]}'); continue
+        val = a.P if 'T' in kw else a.T
+        comp = np.asarray(a.y if name.startswith('Bubble') else a.x, float)
+        rec.hit('single:call-form')
+        rec.check(val == exp and np.array_equal(comp, unit) and np.array_equal(np.asarray(a.z, float), unit), 'single-component', 'call/' + name,
+                  f'single component {c.ID}: {name} with {k}*z as a list gives {val!r}, composition {comp.tolist()}, z {np.asarray(a.z).tolist()} but the saturation value is {exp!r}')
+    if n > 1:
+        # the same chemical at another position of the list
+        import random
+        p = list(range(n)); random.Random(case['pseed']).shuffle(p)
+        pid = [case['ids'][i] for i in p]
+        thp = thermo(pid, case['ideal'], case.get('pkg')); chp = tuple(thp.chemicals)
+        try:
+            bpp = eq.BubblePoint(chp, thp); dpp = eq.DewPoint(chp, thp); zp = z[p]
+            for name, r, exp in (('Py', bpp.solve_Py(zp.copy(), T0), expP), ('Ty', bpp.solve_Ty(zp.copy(), P0), expT), ('Px', dpp.solve_Px(zp.copy(), T0), expP), ('Tx', dpp.solve_Tx(zp.copy(), P0), expT)):
+                rec.hit('single:permuted')
+                rec.check(r[0] == exp and np.array_equal(np.asarray(r[1], float), unit[p]), 'single-component', name + '/permuted', f'single component {c.ID} listed as {pid}: {name} gives {r[0]!r}, {np.asarray(r[1]).tolist()} but the saturation value is {exp!r}')
+        except Exception as e:
+            if refusal(e): rec.refuse('single permuted call refused')
+            else: rec.exception('single-component', e, what=f'single component on the permuted list {pid} raised {type(e).__name__}: {str(e)[:100]}')
+
+
+def extra(case, rec, th, chems, bp, dp, z, T0, P0, cls, Pb, Tb, Pd, Td, dew_bad, call):
+    ids = case['ids']; k = case['k']; n = len(ids)
+    Tlo, Thi = bp.Tmin, bp.Tmax
+    zn = z / z.sum()
+    # ---- inverse relation, the other way round: the pressure at the temperature obtained from a pressure
+    if Tb is not None and Tlo + 1 < Tb[0] < Thi - 1:
+        r = call('inverse:solve_Py(solve_Ty)', lambda: bp.solve_Py(z.copy(), Tb[0]))
+        # (equivalent of the 1e-4 K bound of the T<-P<-T direction: d ln P / dT of a bubble line is below 0.1 / K)
+        if r is not None: rec.check(abs(r[0] - P0) <= 1e-5 * P0, 'inverse', f'bubble-P/{cls}', f'solve_Py(z, solve_Ty(z,{P0}).T={Tb[0]!r}).P = {r[0]!r}', residual=abs(r[0] - P0) / P0)
+    if Td is not None and Tlo + 1 < Td[0] < Thi - 1 and dew_bad.get('solve_Tx') in ('ok', 'unconverged', 'wrong'):
+        r = call('inverse:solve_Px(solve_Tx)', lambda: dp.solve_Px(z.copy(), Td[0]))
+        if r is not None:
+            st2, _ = dew_status(dp, z, Td[0], r[0], r[1], 'solve_Px')
+            sfx = '/dew-unconverged' if (dew_bad.get('solve_Tx') == 'unconverged' or st2 == 'unconverged') else ''
+            if not sfx and abs(r[0] - P0) > 1e-5 * P0 and dew_bad.get('solve_Tx') == 'ok' and st2 == 'ok': sfx = '/multiple-roots'
+            key = f'dew-P/{cls}/dew-unconverged' if sfx == '/dew-unconverged' else f'dew/{cls}/P-from-T{sfx}'
+            rec.check(abs(r[0] - P0) <= 1e-5 * P0, 'inverse', key, f'solve_Px(z, solve_Tx(z,{P0}).T={Td[0]!r}).P = {r[0]!r}', residual=abs(r[0] - P0) / P0)
+    # ---- the public call form and its result object: the given value is echoed, z and y / x are returned normalised, the value is that of the solve_* method on the normalised z
+    for name, obj, kw, base, meth in (('BubblePoint(z,T)', bp, {'T': T0}, Pb, 'solve_Py'), ('BubblePoint(z,P)', bp, {'P': P0}, Tb, 'solve_Ty'), ('DewPoint(z,T)', dp, {'T': T0}, Pd, 'solve_Px'), ('DewPoint(z,P)', dp, {'P': P0}, Td, 'solve_Tx')):
+        if base is None: continue
+        for form, arg in ((('list', list(k * z)), ('tuple', tuple(k * z)))[case['pseed'] % 2],):
+            try: a = obj(arg, **kw)
+            except Exception as e:
+                if refusal(e): rec.refuse('call form refused'); continue
+                rec.exception(f'call-form/{cls}', e, what=f'{name} with z as a {form} raised {type(e).__name__}: {str(e)[:100]}'); continue
+            rec.hit('call-form:' + form)
+            given, val = (a.T, a.P) if 'T' in kw else (a.P, a.T)
+            comp = np.asarray(a.y if name.startswith('Bubble') else a.x, float)
+            dsfx = ''
+            if name.startswith('Dew'):
+                if dew_bad.get(meth) == 'unconverged': dsfx = '/dew-unconverged'
+                elif dew_bad.get(meth) != 'ok': dsfx = '/' + cls + '-dew-not-ok'
+            rec.check(given == (T0 if 'T' in kw else P0) and tuple(a.IDs) == tuple(c.ID for c in chems), 'call-form', f'echo/{name}', f'{name}: result carries {"T" if "T" in kw else "P"}={given!r} and IDs {a.IDs} for the given {kw} on {ids}')
+            rec.check(abs(np.asarray(a.z, float).sum() - 1) <= 1e-12 and np.allclose(np.asarray(a.z, float), zn, rtol=1e-12, atol=0), 'normalised', f'call/{name}/z', f'{name}: result z {np.asarray(a.z).tolist()} is not the normalised composition {zn.tolist()}')
+            if not dsfx or dsfx == '/dew-unconverged':
+                rec.check(abs(comp.sum() - 1) <= 1e-12 and (comp >= 0).all(), 'normalised', f'call/{name}/{cls}{dsfx}', f'{name}: returned {"y" if name.startswith("Bubble") else "x"} {comp.tolist()} sums to {comp.sum()!r}')
+            if 'T' in kw or Tlo < base[0] < Thi:
+                # the call form normalises: it is the solve_* method on z / sum(z)
+                rec.check(abs(val - base[0]) <= 1e-7 * abs(base[0]), 'call-form', f'value/{name}/{cls}{dsfx}', f'{name} gives {val!r} but {meth} on the same normalised z gives {base[0]!r}', residual=abs(val - base[0]) / abs(base[0]))
+    # ---- stream-level entry points (the chemicals with flow are selected, the flows normalised): same answer as the solver on the normalised composition
+    try:
+        s = tmo.Stream(None, thermo=th, T=T0, P=P0, phase='l')
+        for i, v in zip(ids, k * z):
+            if v: s.imol[i] = v
+        sub = [j for j in range(n) if z[j] > 0]
+        for name, fn, base, meth in (('bubble_point_at_T', lambda **kw: s.bubble_point_at_T(**kw), Pb, 'solve_Py'), ('bubble_point_at_P', lambda **kw: s.bubble_point_at_P(**kw), Tb, 'solve_Ty'),
+                                     ('dew_point_at_T', lambda **kw: s.dew_point_at_T(**kw), Pd, 'solve_Px'), ('dew_point_at_P', lambda **kw: s.dew_point_at_P(**kw), Td, 'solve_Tx')):
+            if base is None: continue
+            if name.endswith('_P') and not (Tlo < base[0] < Thi): continue
+            dsfx = ''
+            if name.startswith('dew'):
+                if dew_bad.get(meth) == 'unconverged': dsfx = '/dew-unconverged'
+                elif dew_bad.get(meth) != 'ok': continue
+                if cls == 'cross-family': rec.refuse('stream-level dew point on a cross-family non-ideal mixture: not judged (dew-side clauses are judged on family / ideal inputs)'); continue
+            for form in (('default', 'explicit', 'IDs')[case['pseed'] % 3],):
+                kw = {}
+                if form != 'default': kw['T' if name.endswith('_T') else 'P'] = T0 if name.endswith('_T') else P0
+                if form == 'IDs': kw['IDs'] = tuple(ids)                      # every chemical of the package, the absent ones at zero
+                try: a = fn(**kw)
+                except Exception as e:
+                    if refusal(e): rec.refuse('stream-level call refused'); continue
+                    rec.exception(f'stream-level/{cls}', e, what=f'Stream.{name}({kw}) on {ids} raised {type(e).__name__}: {str(e)[:100]}'); continue
+                rec.hit('stream-level:' + form)
+                val = a.P if name.endswith('_T') else a.T
+                comp = np.asarray(a.y if name.startswith('bubble') else a.x, float)
+                full = np.zeros(n)
+                if form == 'IDs': full = comp
+                else: full[sub] = comp
+                ref = np.asarray(base[1], float)
+                dsfx2 = dsfx
+                if name.startswith('dew') and not dsfx2:
+                    # is the stream-level result itself a converged dew point of the solver that produced it?
+                    dps = s.get_dew_point(kw.get('IDs')); zs_ = z if form == 'IDs' else z[sub]
+                    st_ = dew_status(dps, zs_, T0 if name.endswith('_T') else a.T, a.P if name.endswith('_T') else P0, comp, meth)[0] if (name.endswith('_T') or Tlo < a.T < Thi) else 'unconverged'
+                    if st_ == 'unconverged': dsfx2 = '/dew-unconverged'
+                # the subset solver sees the same mixture without the absent members: same value to the solvers' resolution (1e-7 relative as for the scale clause; compositions 1e-6)
+                tolv = (1e-7 * abs(base[0]) + (2e-3 if name.endswith('_T') else 0.0)) if not name.startswith('dew') else (1e-6 * abs(base[0]) + 1e-2 if name.endswith('_T') else 1e-4)
+                rec.check(abs(val - base[0]) <= tolv and (bool(dsfx2) or np.allclose(full, ref, rtol=0, atol=1e-5)), 'stream-level', f'{name}/{form}/{cls}{dsfx2}',
+                          f'Stream.{name}({kw}) with flows {k}*z gives {val!r}, {full.tolist()} but {meth} on the normalised composition gives {base[0]!r}, {ref.tolist()} (ids={ids}, z={zn.tolist()})', residual=abs(val - base[0]) / abs(base[0]))
+    except Exception as e:
+        rec.exception(f'stream-level/{cls}', e, what=f'stream-level bubble / dew point on {ids} raised {type(e).__name__}: {str(e)[:100]}')
+    # ---- permutation: the returned compositions are permuted with the list (all four solvers); for n >= 4 permutations drawn at random instead of the lexicographic head
+    import random
+    r_ = random.Random(case['pseed'] + 1)
+    perms = []
+    head = [list(q) for q in list(itertools.permutations(range(n)))[:7]] if n == 4 else None       # the permutations the loop above has taken
+    for _ in range(2 if n == 4 else 0):
+        p = list(range(n)); r_.shuffle(p)
+        if p not in head and p not in perms: perms.append(p)
+    for p in perms:
+        pid = [ids[i] for i in p]
+        try:
+            thp = thermo(pid, case['ideal'], case.get('pkg')); chp = tuple(thp.chemicals)
+            bpp = eq.BubblePoint(chp, thp); dpp = eq.DewPoint(chp, thp); zp = z[p]
+            rec.hit('permutation:random')
+            if Pb is not None:
+                r = bpp.solve_Py(zp.copy(), T0)
+                rec.check(abs(r[0] - Pb[0]) <= 1e-9 * Pb[0] + 1e-2 and np.allclose(r[1], np.asarray(Pb[1])[p], rtol=1e-8, atol=1e-14), 'permutation', f'bubble-P/{cls}', f'bubble pressure / y depend on the order of the chemicals: {Pb[0]!r} vs {r[0]!r} for order {pid}')
+            if Tb is not None and Tlo < Tb[0] < Thi:
+                r = bpp.solve_Ty(zp.copy(), P0)
+                rec.check(abs(r[0] - Tb[0]) <= 1e-9 * Tb[0] + 1e-8 and np.allclose(r[1], np.asarray(Tb[1])[p], rtol=1e-6, atol=1e-12), 'permutation', f'bubble-T/{cls}', f'bubble temperature / y depend on the order of the chemicals: {Tb[0]!r}, {np.asarray(Tb[1])[p].tolist()} vs {r[0]!r}, {np.asarray(r[1]).tolist()} for order {pid}')
+            if Pd is not None and dew_bad.get('solve_Px') in ('ok', 'unconverged'):
+                r = dpp.solve_Px(zp.copy(), T0)
+                stp, _ = dew_status(dpp, zp, T0, r[0], r[1], 'solve_Px')
+                sfx = '/dew-unconverged' if (stp == 'unconverged' or dew_bad.get('solve_Px') == 'unconverged') else ''
+                rec.check(abs(r[0] - Pd[0]) <= 1e-6 * Pd[0] + 1e-2 and (bool(sfx) or np.allclose(r[1], np.asarray(Pd[1])[p], rtol=0, atol=1e-5)), 'permutation', f'dew-P/{cls}{sfx}', f'dew pressure / x depend on the order of the chemicals: {Pd[0]!r}, {np.asarray(Pd[1])[p].tolist()} vs {r[0]!r}, {np.asarray(r[1]).tolist()} for order {pid}')
+            if Td is not None and Tlo < Td[0] < Thi and dew_bad.get('solve_Tx') in ('ok', 'unconverged'):
+                r = dpp.solve_Tx(zp.copy(), P0)
+                stp, _ = dew_status(dpp, zp, r[0], P0, r[1], 'solve_Tx') if Tlo < r[0] < Thi else ('unconverged', 0)
+                sfx = '/dew-unconverged' if (stp == 'unconverged' or dew_bad.get('solve_Tx') == 'unconverged') else ''
+                rec.check(abs(r[0] - Td[0]) <= 1e-4 and (bool(sfx) or np.allclose(r[1], np.asarray(Td[1])[p], rtol=0, atol=1e-5)), 'permutation', f'dew-T/{cls}{sfx}', f'dew temperature / x depend on the order of the chemicals: {Td[0]!r}, {np.asarray(Td[1])[p].tolist()} vs {r[0]!r}, {np.asarray(r[1]).tolist()} for order {pid}')
+        except Exception as e:
+            if refusal(e): rec.refuse('permuted call refused'); continue
+            rec.exception(f'permutation/{cls}', e, what=f'solver on the permuted list {pid} raised {type(e).__name__}: {str(e)[:100]}'); break
+    # ---- a solver built on a subset of the package's chemicals (the way the flash builds them) against a package that holds only that subset;
+    #      and the cached instance (used by every earlier case on this list) against a freshly constructed one
+    sub = [j for j in range(n) if z[j] > 0]
+    if 2 <= len(sub) < n:
+        try:
+            sc = tuple(chems[j] for j in sub); zs = z[sub]
+            b1 = eq.BubblePoint(sc, th); d1 = eq.DewPoint(sc, th)
+            th2 = thermo([ids[j] for j in sub], case['ideal'], case.get('pkg')); c2 = tuple(th2.chemicals)
+            b2 = eq.BubblePoint(c2, th2); d2 = eq.DewPoint(c2, th2)
+            rec.hit('subset-of-package')
+            for name, f1, f2, base in (('solve_Py', lambda: b1.solve_Py(zs.copy(), T0), lambda: b2.solve_Py(zs.copy(), T0), Pb), ('solve_Ty', lambda: b1.solve_Ty(zs.copy(), P0), lambda: b2.solve_Ty(zs.copy(), P0), Tb),
+                                       ('solve_Px', lambda: d1.solve_Px(zs.copy(), T0), lambda: d2.solve_Px(zs.copy(), T0), Pd), ('solve_Tx', lambda: d1.solve_Tx(zs.copy(), P0), lambda: d2.solve_Tx(zs.copy(), P0), Td)):
+                if base is None: continue
+                if name.endswith(('Ty', 'Tx')) and not (Tlo < base[0] < Thi): continue
+                r1 = f1(); r2 = f2()
+                rec.check(r1[0] == r2[0] and np.array_equal(np.asarray(r1[1]), np.asarray(r2[1])), 'subset', f'{name}/{cls}', f'{name} of a solver built on {[c.ID for c in sc]} inside the package {ids} gives {r1[0]!r} but {r2[0]!r} in a package of exactly these chemicals')
+        except Exception as e:
+            if refusal(e): rec.refuse('subset call refused')
+            else: rec.exception(f'subset/{cls}', e, what=f'solver on a subset of {ids} raised {type(e).__name__}: {str(e)[:100]}')
+    if case.get('fresh'):
+        saved_b, saved_d = dict(eq.BubblePoint._cached), dict(eq.DewPoint._cached)
+        try:
+            eq.BubblePoint._cached.clear(); eq.DewPoint._cached.clear()
+            bf = eq.BubblePoint(chems, th); df = eq.DewPoint(chems, th)
+            rec.hit('fresh-instance')
+            rec.check(bf is not bp and df is not dp, 'cache', 'new-after-clear', 'clearing the instance cache did not produce a new solver object')
+            for name, fn, base in (('solve_Py', lambda: bf.solve_Py(z.copy(), T0), Pb), ('solve_Ty', lambda: bf.solve_Ty(z.copy(), P0), Tb), ('solve_Px', lambda: df.solve_Px(z.copy(), T0), Pd), ('solve_Tx', lambda: df.solve_Tx(z.copy(), P0), Td)):
+                if base is None: continue
+                r = fn()
+                rec.check(r[0] == base[0] and np.array_equal(np.asarray(r[1]), np.asarray(base[1])), 'cache', f'{name}/{cls}', f'{name}: the cached solver (used by earlier cases) gives {base[0]!r} but a freshly constructed one gives {r[0]!r} (ids={ids}, z={z.tolist()})')
+        except Exception as e:
+            if refusal(e): rec.refuse('fresh-instance call refused')
+            else: rec.exception(f'cache/{cls}', e, what=f'fresh solver on {ids} raised {type(e).__name__}: {str(e)[:100]}')
+        finally:
+            eq.BubblePoint._cached.clear(); eq.BubblePoint._cached.update(saved_b); eq.DewPoint._cached.clear(); eq.DewPoint._cached.update(saved_d)
+        bq = eq.BubblePoint(chems, th)
+        rec.check(bq is bp, 'cache', 'same-key-same-instance', 'BubblePoint(chemicals, thermo) with the same chemicals and models did not return the cached instance')
 
 
 def replay(case, rec):
